@@ -15,6 +15,11 @@
    move assignment, move construction from a node) the node STAYS WHERE IT IS in
    its parent's child list and only its label and children change.
 
+   Assignment FROM a proper descendant (node = std::move(first child of node), "replace a node by one
+   of its children") is driven: the destination takes the label and children the source had
+   before the call; the source, owned by the destination's old child list, dies with it.
+   Assignment from an ancestor and swap of related nodes stay excluded (preconditions).
+
    Left open on purpose (weaker reading, see docs/notes_C09.md):
      - the label and children of a moved-from node (listed in `free`); only the
        well-formedness of its links is demanded,
@@ -154,10 +159,12 @@ NoRet == [s |-> 0, p |-> <<>>]
 SameNode(a) == a.as = a.bs /\ a.ap = a.bp
 Related(a) == a.as = a.bs /\ (IsPrefix(a.ap, a.bp) \/ IsPrefix(a.bp, a.ap))    \* equal, ancestor or descendant
 BAboveA(a) == a.as = a.bs /\ IsPrefix(a.bp, a.ap)                              \* b is a or an ancestor of a
+BBelowA(a) == a.as = a.bs /\ IsPrefix(a.ap, a.bp) /\ a.ap # a.bp                \* b is a proper descendant of a
 
-(* API preconditions.  Excluded as in the standard containers: the operands of swap / assignment
-   are distinct and neither is an ancestor of the other; a tree is not moved into its own
-   sub-tree; iterators are valid. *)
+(* API preconditions.  Excluded as in the standard containers: the operands of swap are distinct
+   and neither is an ancestor of the other; the source of an assignment is not the destination
+   or one of its ancestors (it may be a descendant); a tree is not moved into its own sub-tree;
+   iterators are valid. *)
 Pre(f, a) ==
   LET va == Valid(f, a.as, a.ap)
       vb == Valid(f, a.bs, a.bp)
@@ -178,7 +185,8 @@ Pre(f, a) ==
        [] a.op = "erase" -> va /\ a.pos \in 0..(nk - 1)
        [] a.op = "erase_range" -> va /\ a.pos \in 0..nk /\ a.pos2 \in a.pos..nk
        [] a.op = "release" -> va /\ a.pos \in 0..(nk - 1) /\ (a.d = 0 \/ dd(a.d))
-       [] a.op \in {"swap", "swap_free", "copy_assign", "move_assign"} -> va /\ vb /\ ~Related(a)
+       [] a.op \in {"swap", "swap_free"} -> va /\ vb /\ ~Related(a)
+       [] a.op \in {"copy_assign", "move_assign"} -> va /\ vb /\ (~Related(a) \/ BBelowA(a))
        [] a.op \in {"eq", "ne"} -> va /\ vb
        [] OTHER -> FALSE
 
@@ -240,7 +248,9 @@ Eff(f, a) ==
             Simple(PutAt(PutAt(f, a.as, a.ap, B), a.bs, a.bp, A))
        [] a.op = "copy_assign" -> Simple(SetA(B))
        [] a.op = "move_assign" ->
-            R(PutAt(SetA(B), a.bs, a.bp, Husk(B)), NoRet, FALSE, FALSE, {[s |-> a.bs, p |-> a.bp]})
+            IF BBelowA(a)
+            THEN Simple(SetA(B))     \* the source was owned by the destination's old children: it is gone
+            ELSE R(PutAt(SetA(B), a.bs, a.bp, Husk(B)), NoRet, FALSE, FALSE, {[s |-> a.bs, p |-> a.bp]})
        [] a.op = "set_value" -> Simple(SetA([A EXCEPT !.v = a.x]))
        [] a.op = "eq" -> R(f, NoRet, FALSE, Equal(A, B), {})
        [] a.op = "ne" -> R(f, NoRet, FALSE, ~Equal(A, B), {})
@@ -266,6 +276,7 @@ OpsOf(f) ==
       Pairs == N \X N
       Unrel == {w \in Pairs : ~Related(OnAB("", w))}
       Movable == {w \in Pairs : ~BAboveA(OnAB("", w))}
+      Below == {w \in Pairs : BBelowA(OnAB("", w))}
       SS == {<<>>} \cup {<<i>> : i \in live} \cup {<<w[1], w[2]>> : w \in {w \in live \X live : w[1] # w[2]}}
       OpsOn(n) ==
         LET nk == Len(T(n).k) IN
@@ -296,6 +307,7 @@ OpsOf(f) ==
   \cup UNION {OpsOn(n) : n \in N}
   \cup (IF room >= 1 THEN UNION {OpsOnPair(w) : w \in Movable} ELSE {})
   \cup {OnAB(o, w) : o \in {"swap", "swap_free", "move_assign"}, w \in Unrel}
+  \cup {OnAB(o, w) : o \in {"copy_assign", "move_assign"}, w \in Below}
   \cup {OnAB("copy_assign", w) : w \in {w \in Unrel : Size(T(w[2])) - Size(T(w[1])) <= room}}
   \cup {OnAB(o, w) : o \in {"eq", "ne"}, w \in Pairs}
 
@@ -364,7 +376,10 @@ OpLaws ==
          /\ At(e.f, a.as, a.ap) = At(st, a.bs, a.bp) /\ At(e.f, a.bs, a.bp) = At(st, a.as, a.ap)
     /\ a.op = "copy_assign" =>
          /\ Equal(At(e.f, a.as, a.ap), At(st, a.bs, a.bp))
-         /\ At(e.f, a.bs, a.bp) = At(st, a.bs, a.bp)            \* the source is untouched
+         /\ ~Related(a) => At(e.f, a.bs, a.bp) = At(st, a.bs, a.bp)   \* the source is untouched
+    /\ a.op \in {"copy_assign", "move_assign"} /\ BBelowA(a) =>
+         /\ At(e.f, a.as, a.ap) = At(st, a.bs, a.bp)
+         /\ Total(e.f) = Total(st) - Size(At(st, a.as, a.ap)) + Size(At(st, a.bs, a.bp))
     /\ a.op = "copy_ctor" => e.f[a.d].t = At(st, a.as, a.ap) /\ \A s \in 1..NS : s # a.d => e.f[s] = st[s]
     /\ a.op \in {"move_ctor", "push_back_tree", "push_front_tree", "insert_tree"} => Total(e.f) = Total(st) + 1
     /\ a.op \in {"push_back", "push_front"} => At(e.f, e.ret.s, e.ret.p) = Leaf(a.x)
